@@ -3,6 +3,7 @@ import EaselModel.Msa.LemmasWf
 import EaselModel.Msa.LemmasRc
 import EaselModel.Msa.LemmasRbb
 import EaselModel.Msa.LemmasFrag
+import EaselModel.Msa.LemmasTags
 /-! Histories: every alignment reachable from a well-formed one by ANY chain of (successful) transformations is well
     formed, digital rows keep valid codes, and mode and alphabet stay consistent. -/
 namespace EaselModel.Msa
@@ -21,6 +22,8 @@ structure Inv (m : Msa) : Prop where
   wf : m.WF
   dig : m.isDigital = true → ∃ a, AbcOk a ∧ m.abc = some a ∧ m.codesOk a
   txt : m.isDigital = false → m.abc = none
+  gsND : (m.gs.map (·.1)).Nodup
+  grND : (m.gr.map (·.1)).Nodup
 
 /-- one successful transformation -/
 inductive Step : Msa → Msa → Prop where
@@ -33,6 +36,7 @@ inductive Step : Msa → Msa → Prop where
   | revcomp (m : Msa) : (reverseComplement m).st = .ok → Step m (reverseComplement m).msa
   | flushLeft (m : Msa) : m.isDigital = true → (flushLeftInserts m).st = .ok → Step m (flushLeftInserts m).msa
   | markFragOld (m : Msa) (isFrag : Nat → Bool) : Step m (markFragmentsOld m isFrag)
+  | seqSubset (m : Msa) (useme : List Bool) (b : Msa) : sequenceSubset m useme = .ok b → Step m b
 
 /-- a history -/
 inductive Steps : Msa → Msa → Prop where
@@ -40,9 +44,10 @@ inductive Steps : Msa → Msa → Prop where
   | tail (a b c : Msa) : Steps a b → Step b c → Steps a c
 
 theorem Inv_of_same_rows (a b : Msa) (wf : a.WF) (hf : a.flags = b.flags) (ha : a.abc = b.abc)
-    (hr : ∀ r ∈ a.rows, ∀ x ∈ r, ∃ r' ∈ b.rows, x ∈ r') (inv : Inv b) : Inv a := by
+    (hr : ∀ r ∈ a.rows, ∀ x ∈ r, ∃ r' ∈ b.rows, x ∈ r') (hgs : a.gs.map (·.1) = b.gs.map (·.1))
+    (hgr : a.gr.map (·.1) = b.gr.map (·.1)) (inv : Inv b) : Inv a := by
   have hd : a.isDigital = b.isDigital := by simp [Msa.isDigital, hf]
-  refine ⟨wf, ?_, ?_⟩
+  refine ⟨wf, ?_, ?_, by rw [hgs]; exact inv.gsND, by rw [hgr]; exact inv.grND⟩
   · intro h
     obtain ⟨al, hok, habc, hc⟩ := inv.dig (by rw [← hd]; exact h)
     refine ⟨al, hok, by rw [ha]; exact habc, ?_⟩
@@ -53,7 +58,8 @@ theorem Inv_of_same_rows (a b : Msa) (wf : a.WF) (hf : a.flags = b.flags) (ha : 
     rw [ha]; exact inv.txt (by rw [← hd]; exact h)
 
 theorem colFilter_inv (m : Msa) (mask : List Bool) (hm : mask.length = m.alen) (inv : Inv m) : Inv (m.colFilter mask) := by
-  apply Inv_of_same_rows _ m (colFilter_wf m mask inv.wf hm) rfl rfl _ inv
+  apply Inv_of_same_rows _ m (colFilter_wf m mask inv.wf hm) rfl rfl _ rfl
+    (by simp [Msa.colFilter, List.map_map, Function.comp_def]) inv
   intro r hr x hx
   simp only [Msa.colFilter, List.mem_map] at hr
   obtain ⟨r0, hr0, rfl⟩ := hr
@@ -62,7 +68,7 @@ theorem colFilter_inv (m : Msa) (mask : List Bool) (hm : mask.length = m.alen) (
 theorem rbb_inv (m : Msa) (mask : List Bool) (hok : (removeBrokenBasepairs m mask).st = .ok) (inv : Inv m) :
     Inv (removeBrokenBasepairs m mask).msa := by
   obtain ⟨wf', _, sc, ss', hform⟩ := removeBrokenBasepairs_wf m mask inv.wf hok
-  apply Inv_of_same_rows _ m wf' (by rw [hform]) (by rw [hform]) _ inv
+  apply Inv_of_same_rows _ m wf' (by rw [hform]) (by rw [hform]) _ (by rw [hform]) (by rw [hform]) inv
   intro r hr x hx
   rw [hform] at hr
   exact ⟨r, hr, hx⟩
@@ -115,7 +121,7 @@ theorem digitize_inv (m : Msa) (a : Abc) (hA : AbcOk a) (hok : (digitize a m).st
     unfold digitize; simp [hd, hv']
   have hwf := (digitize_wf a m inv.wf hd hv hA.Kp_le).2
   rw [hres] at hwf ⊢
-  refine ⟨hwf, ?_, ?_⟩
+  refine ⟨hwf, ?_, ?_, inv.gsND, inv.grND⟩
   · intro _
     refine ⟨a, hA, rfl, ?_⟩
     intro r hr x hx
@@ -149,7 +155,7 @@ theorem textize_inv (m : Msa) (hok : (textize m).st = .ok) (inv : Inv m) : Inv (
   have hnd : Msa.isDigital { m with rows := m.rows.map (fun r => (r.take m.alen).map (fun x => a.sym.getD x.toNat 0)), abc := none,
                                     flags := m.flags - flagDigital } = false := by
     rcases flags_digital m inv.wf hd with h | h <;> simp [Msa.isDigital, h, flagDigital]
-  refine ⟨hwf, ?_, fun _ => rfl⟩
+  refine ⟨hwf, ?_, fun _ => rfl, inv.gsND, inv.grND⟩
   intro h; rw [hnd] at h; cases h
 
 theorem revcomp_inv (m : Msa) (hok : (reverseComplement m).st = .ok) (inv : Inv m) : Inv (reverseComplement m).msa := by
@@ -164,7 +170,7 @@ theorem revcomp_inv (m : Msa) (hok : (reverseComplement m).st = .ok) (inv : Inv 
     have hres : reverseComplement m = { msa := rcMsa compl m, st := .ok } := by simp [reverseComplement, hd, habc, hcompl]
     rw [hres]
     have hwf := rcMsa_wf a compl m inv.wf hd hc (hA.compl_closed compl hcompl) hA.Kp_le
-    refine ⟨hwf, ?_, ?_⟩
+    refine ⟨hwf, ?_, ?_, inv.gsND, by simpa [rcMsa, List.map_map, Function.comp_def] using inv.grND⟩
     · intro _
       refine ⟨a, hA, habc, ?_⟩
       intro r hr x hx
@@ -190,7 +196,7 @@ theorem flushLeft_inv (m : Msa) (hd : m.isDigital = true) (hok : (flushLeftInser
       have := hA.K_lt; have := hA.Kp_le
       simp [Abc.xIsGap, Abc.xGap, UInt8.toNat_ofNat]; omega
     have hwf := flushLeftInserts_wf m a rf inv.wf hrf hd hg (by have := hA.K_lt; have := hA.Kp_le; omega)
-    refine ⟨hwf, ?_, ?_⟩
+    refine ⟨hwf, ?_, ?_, inv.gsND, inv.grND⟩
     · intro _
       refine ⟨a, hA, habc, ?_⟩
       intro r hr x hx
@@ -212,7 +218,7 @@ theorem markFragOld_inv (m : Msa) (isFrag : Nat → Bool) (inv : Inv m) : Inv (m
   | false =>
     have hnone := inv.txt hd
     have hmiss : (fragSyms m).2 ≠ m.rowTerm := by simp [fragSyms, hnone, Msa.rowTerm, hd]
-    refine ⟨markFragmentsOld_wf m isFrag inv.wf hmiss, ?_, ?_⟩
+    refine ⟨markFragmentsOld_wf m isFrag inv.wf hmiss, ?_, ?_, inv.gsND, inv.grND⟩
     · intro h; rw [hdig, hd] at h; cases h
     · intro _; rw [habc']; exact hnone
   | true =>
@@ -226,7 +232,7 @@ theorem markFragOld_inv (m : Msa) (isFrag : Nat → Bool) (inv : Inv m) : Inv (m
       intro e
       have := congrArg UInt8.toNat e
       simp at this; omega
-    refine ⟨markFragmentsOld_wf m isFrag inv.wf hmiss, ?_, ?_⟩
+    refine ⟨markFragmentsOld_wf m isFrag inv.wf hmiss, ?_, ?_, inv.gsND, inv.grND⟩
     · intro _
       refine ⟨a, hA, by rw [habc']; exact habc, ?_⟩
       intro r hr x hx
@@ -246,21 +252,37 @@ theorem markFragOld_inv (m : Msa) (isFrag : Nat → Bool) (inv : Inv m) : Inv (m
       · exact hc r0 hr0 x hx
     · intro h; rw [hdig, hd] at h; cases h
 
+theorem seqSubset_inv (m : Msa) (useme : List Bool) (b : Msa) (h : sequenceSubset m useme = .ok b) (inv : Inv m) : Inv b := by
+  obtain ⟨hn, rfl⟩ := sequenceSubset_ok m useme b h
+  have ht := subset_tables m useme inv.gsND inv.grND
+  have hd : (sequenceSubsetMsa m useme (countSelected m useme)).isDigital = m.isDigital := rfl
+  refine ⟨sequenceSubsetMsa_wf m useme inv.wf hn inv.gsND inv.grND, ?_, ?_, ht.2.2.1, ht.2.2.2.1⟩
+  · intro hdig
+    obtain ⟨a, hA, habc, hc⟩ := inv.dig (by rw [← hd]; exact hdig)
+    refine ⟨a, hA, habc, ?_⟩
+    intro r hr x hx
+    exact hc r (mem_maskFilter useme m.rows r hr) x hx
+  · intro htx
+    exact inv.txt (by rw [← hd]; exact htx)
+
 theorem step_inv (m m' : Msa) (h : Step m m') (inv : Inv m) : Inv m' := by
   cases h with
   | col mask hm hok => exact columnSubset_inv m mask hm hok inv
   | rbb mask hok => exact rbb_inv m mask hok inv
   | setStr f idx s n =>
     have hs := setStr_same m f idx s n
-    exact Inv_of_same_rows _ m (setStr_wf m inv.wf f idx s n) hs.flags hs.abc (fun r hr x hx => ⟨r, by rw [← hs.rows]; exact hr, hx⟩) inv
+    exact Inv_of_same_rows _ m (setStr_wf m inv.wf f idx s n) hs.flags hs.abc (fun r hr x hx => ⟨r, by rw [← hs.rows]; exact hr, hx⟩)
+      (by rw [hs.gs]) (by rw [hs.gr]) inv
   | formatStr f idx out =>
     have hs := formatStr_same m f idx out
-    exact Inv_of_same_rows _ m (formatStr_wf m inv.wf f idx out) hs.flags hs.abc (fun r hr x hx => ⟨r, by rw [← hs.rows]; exact hr, hx⟩) inv
+    exact Inv_of_same_rows _ m (formatStr_wf m inv.wf f idx out) hs.flags hs.abc (fun r hr x hx => ⟨r, by rw [← hs.rows]; exact hr, hx⟩)
+      (by rw [hs.gs]) (by rw [hs.gr]) inv
   | digitize a hA hok => exact digitize_inv m a hA hok inv
   | textize hok => exact textize_inv m hok inv
   | revcomp hok => exact revcomp_inv m hok inv
   | flushLeft hd hok => exact flushLeft_inv m hd hok inv
   | markFragOld isFrag => exact markFragOld_inv m isFrag inv
+  | seqSubset useme _ hb => exact seqSubset_inv m useme m' hb inv
 
 /-- every history keeps the invariant -/
 theorem steps_inv (m m' : Msa) (h : Steps m m') (inv : Inv m) : Inv m' := by
